@@ -558,6 +558,9 @@ class Executor(Engine):
             elif meth == 'extend' and isinstance(args[0].ty, TBag):
                 new = self.bag_union(base, args[0], ctx)
         elif isinstance(base.ty, TAbs) and base.ty.name in getattr(self, 'opaque_lists', ()):
+            if meth == 'extend' and isinstance(args[0].ty, TOpt) and args[0].ty.inner == base.ty:
+                ctx.exc('TypeError', args[0].ty.is_none(args[0].t))       # list.extend(None)
+                args[0] = V(base.ty, args[0].ty.val(args[0].t))
             if meth == 'extend' and args[0].ty == base.ty:
                 # an opaque list extended by another: CAT(a, b), a function of the two values (only its items view is ever inspected)
                 cat = z3.Function('spec_CAT_' + base.ty.name, base.ty.sort(), base.ty.sort(), base.ty.sort())   # = the spec function CAT_<type> of the contract module
